@@ -9,6 +9,8 @@ import SqlObjVerif.Model.DrvUtil
     `destroy <e> <i>`                                 -> `ok del <classes in DELETE order>` | `NotFound`
     `select <c> <filter, prefix notation>` / `selectby <c> (<a>:<k>:<v>)*` -> `sel (<i>:<m|error>)*`
     `bulkdel <c> <filter>` / `bulkdelby <c> (<a>:<k>:<v>)*` -> `ok`  (`cls.deleteMany(where)` / `cls.deleteBy(**kw)`)
+    `destroyb <e> <i> <blocked level>*`               -> `ok del …` | `Integrity del <levels deleted before the refusal>`
+    `conn <k>` / `begin` / `rollback` / `commit`      -> `ok`  (select the database the next requests go to; snapshot / restore it)
     `dump`                                            -> every row of every table
     `views <i>`                                       -> what every entry level shows for id `i` -/
 open SqlObjVerif SqlObjVerif.Inherit SqlObjVerif.DrvUtil
@@ -102,7 +104,7 @@ def showResC : Res → String
 
 def showOut : Out → String
   | .ok => "ok" | .notFound => "NotFound" | .keyError => "KeyError" | .noAttr => "NoAttr"
-  | .duplicate => "dup"
+  | .duplicate => "dup" | .integrity => "Integrity"
 
 def showRd : RdOut → String
   | .val v => "val " ++ toString v
@@ -142,14 +144,19 @@ def selOut (s : St) (f : Nat → Option Res) : String :=
   "sel" ++ String.join ((ids s).filterMap fun i =>
     (f i).map fun r => " " ++ toString i ++ ":" ++ showResC r)
 
-def handle (s : St) (line : String) : St × String :=
+def handleOne (s : St) (line : String) : St × String :=
   match words line with
-  | "tree" :: n :: rest =>
-    match n.toNat? with
-    | some n => match parseTree n rest with
-      | some T => (⟨T, DB.empty, 0, fun _ => 0⟩, "ok")
-      | none => (s, "bad-tree")
-    | none => (s, "bad-tree")
+  | "destroyb" :: e :: i :: bl =>
+    match e.toNat?, i.toNat? with
+    | some e, some i =>
+      let bl := bl.filterMap String.toNat?
+      let blocked : Nat → Bool := fun a => bl.contains a
+      match get s.T s.db e i with
+      | .ok m =>
+        let (db, out) := destroyGuardedVia s.T s.db e i blocked
+        ({ s with db := db }, showOut out ++ " del" ++ classesStr (deletedLevels s.T m blocked))
+      | r => (s, showResC r)
+    | _, _ => (s, "bad-op")
   | "create" :: c :: kvs =>
     match c.toNat?, parseKVs kvs with
     | some c, some kvs =>
@@ -215,4 +222,31 @@ def handle (s : St) (line : String) : St × String :=
     | none => (s, "bad-op")
   | _ => (s, "bad-op")
 
-def main : IO Unit := loop handle St.init
+/-- connection ↦ tables (and the id allocator of that database); `saved` = state at `begin` -/
+structure MSt where
+  conns : Nat → St
+  saved : Nat → St
+  cur : Nat
+
+def handle (ms : MSt) (line : String) : MSt × String :=
+  match words line with
+  | "tree" :: n :: rest =>
+    match n.toNat? with
+    | some n => match parseTree n rest with
+      | some T => (⟨fun _ => ⟨T, DB.empty, 0, fun _ => 0⟩, fun _ => ⟨T, DB.empty, 0, fun _ => 0⟩, 0⟩, "ok")
+      | none => (ms, "bad-tree")
+    | none => (ms, "bad-tree")
+  | ["conn", k] =>
+    match k.toNat? with
+    | some k => ({ ms with cur := k }, "ok")
+    | none => (ms, "bad-op")
+  | ["begin"] =>
+    ({ ms with saved := fun k => if k = ms.cur then ms.conns ms.cur else ms.saved k }, "ok")
+  | ["rollback"] =>
+    ({ ms with conns := fun k => if k = ms.cur then ms.saved ms.cur else ms.conns k }, "ok")
+  | ["commit"] => (ms, "ok")
+  | _ =>
+    let (s', out) := handleOne (ms.conns ms.cur) line
+    ({ ms with conns := fun k => if k = ms.cur then s' else ms.conns k }, out)
+
+def main : IO Unit := loop handle ⟨fun _ => St.init, fun _ => St.init, 0⟩
